@@ -37,6 +37,8 @@ def dates_for(zone, tier="quick"):
     ds = {datetime.date(YEAR, 7, 15), datetime.date(YEAR, 12, 31), datetime.date(YEAR, 2, 29), datetime.date(YEAR, 1, 1)}
     for t in transition_days(zone):
         ds.update({t - datetime.timedelta(days=1), t, t + datetime.timedelta(days=1)})
+    # beyond the signed 32-bit epoch (19 Jan 2038 03:14:08 UTC) and near the end of the unsigned one (7 Feb 2106)
+    ds.update({datetime.date(2038, 1, 19), datetime.date(2038, 1, 20), datetime.date(2040, 2, 29), datetime.date(2099, 12, 31), datetime.date(2106, 2, 5)})
     if tier == "thorough":
         ds.update({datetime.date(YEAR, 3, 1), datetime.date(YEAR + 1, 1, 1), datetime.date(2038, 1, 18), datetime.date(1999, 12, 31), datetime.date(YEAR, 10, 6)})
         for t in transition_days(zone, YEAR + 1):
